@@ -72,7 +72,12 @@ TVStep == /\ l <= Len(Rec) /\ Rec[l].ev = "step"
                        [] OTHER -> DfNext(s, e.letter.k, e.letter.h)
           /\ judged' = judged + 1 /\ l' = l + 1 /\ UNCHANGED <<nq, cur>>
 TVOther == /\ l <= Len(Rec) /\ Rec[l].ev \in {"end", "threads"} /\ l' = l + 1 /\ UNCHANGED <<s, nq, viol, judged, cur>>
-TVNext == TVReset \/ TVStep \/ TVOther
+\* the process under test was killed by a signal while this case ran (recorded by the driver; `begin` marks the letter that
+\* was in progress): judged like any other observation -- whatever the property, an input that kills the process breaks it
+TVCrashAny == /\ l <= Len(Rec) /\ Rec[l].ev \in {"crash", "begin"}
+              /\ viol' = IF Rec[l].ev = "crash" THEN AddViol(viol, {"ANY/process-killed-by-signal-" \o Str(Rec[l].signal)}, Rec[l].id) ELSE viol
+              /\ l' = l + 1 /\ UNCHANGED <<s, nq, judged, cur>>
+TVNext == TVReset \/ TVStep \/ TVOther \/ TVCrashAny
 TVSpec == TVInit /\ [][TVNext]_tvars
 Post == PostOK
 Report == ReportAt(l, judged, viol)
